@@ -90,7 +90,7 @@ template<class V> struct Plan<V, 32> {
     static void run(const std::vector<S>& K) {
         std::vector<S> L = as_scalars<S>(alphabet_L(32, true));
         DomProd2<S> d2(L, L, "L32 x L32");
-        if (opt().thorough) run_ops<V>(erase<S>(d2), erase<S>(DomFull1<S>()), K);
+        if (exh32()) run_ops<V>(erase<S>(d2), erase<S>(DomFull1<S>()), K);
         else run_ops<V>(erase<S>(d2), erase<S>(DomList1<S>(L, "L32")), K);
     }
 };
